@@ -1,2 +1,3 @@
 import KiraModel.Props.C13_a
 import KiraModel.Props.C13_b
+import KiraModel.Props.C13_real
